@@ -755,7 +755,7 @@ def u_vector_where(ctx):
 
 
 # ------------------------------------------------------------------------------------------ unit: algo
-def _row_keys(buf, N, with_states=False):
+def _row_keys(buf, N):
     """bytes of every field of each of the N rows (harness side; exact)."""
     import jax
 
@@ -778,7 +778,6 @@ def u_algo(ctx):
 
     import icontract
     import jax
-    import jax.numpy as jnp
     from lerax.algorithm import DQN
     from lerax.buffer import ReplayBuffer
     from lerax.policy import MLPQPolicy
@@ -800,7 +799,6 @@ def u_algo(ctx):
 
     def add_post(self, observation, next_observation, action, reward, done, timeout, result):
         try:
-            rec = type(result)  # noqa: F841
             np.asarray(self.rewards), np.asarray(result.rewards)
         except Exception:
             events.append(("tracer",))
